@@ -24,14 +24,16 @@ CheckPair(e) ==
        ELSE IF si THEN (IF e.dzero THEN "ok" ELSE "distance-nonzero-on-intersecting")
        ELSE IF e.dzero THEN "distance-zero-on-disjoint"
        ELSE LET d2 == D2(ga,gb) n == e.dn IN
-            IF ~DistOK(n, d2) THEN "distance-value"
+            IF n < 0 THEN "distance-not-finite"
+            ELSE IF ~DistOK(n, d2) THEN "distance-value"
             ELSE IF (n+1)*(n+1) < BoxD2(EnvOf(ga),EnvOf(gb))*16384 THEN "distance-below-envelope-distance"
             ELSE "ok"
 
 \* d(a,c) <= d(a,b) + diam(b) + d(b,c), on floor(d*128) values with rounding slack
 CheckTri(e) ==
   LET gb == Merge(e.b) dm == Diam2(gb) IN
-  IF ~(e.nbd*e.nbd <= dm*16384 /\ dm*16384 < (e.nbd+2)*(e.nbd+2)) THEN "diameter-logged-wrong"
+  IF e.nab < 0 \/ e.nbc < 0 \/ e.nac < 0 THEN "distance-not-finite"
+  ELSE IF ~(e.nbd*e.nbd <= dm*16384 /\ dm*16384 < (e.nbd+2)*(e.nbd+2)) THEN "diameter-logged-wrong"
   ELSE IF e.nac > e.nab + e.nbd + e.nbc + 4 THEN "triangle"
   ELSE "ok"
 
